@@ -97,6 +97,25 @@ class C13(Prop):
             for s in sfxs:
                 yield ("FRAME " + hx(f + s), "suffix-%d" % min(len(s), 9), True)
                 yield ("SCAN " + hx(f + s), "scan-suffix", True)
+        # decoders must not see bytes after the frame: inconsistent internal lengths followed by plausible data
+        for fr in frames_1029_overlong(r, 60 if ctx.tier == "quick" else 600):
+            yield ("DEC " + hx(fr), "internal-length-beyond-payload", True)
+            yield ("FRAME " + hx(fr), "internal-length-beyond-payload", True)
+
+
+def frames_1029_overlong(r, n):
+    """1029 frames whose byte-count field announces 1..8 bytes more than the payload holds, followed by ASCII"""
+    out = []
+    for i in range(n):
+        txt = bytes(r.choice(b"abcdefgh XYZ") for _ in range(r.randrange(0, 12)))
+        extra = r.randrange(1, 9)
+        bits = []
+        for v, w in ((1029, 12), (r.randrange(4096), 12), (r.randrange(65536), 16), (r.randrange(86400), 17),
+                     (len(txt) + extra, 7), (len(txt) + extra, 8)):
+            bits += [(v >> (w - 1 - j)) & 1 for j in range(w)]
+        payload = bytes(int("".join(map(str, bits[k:k + 8])), 2) for k in range(0, 72, 8)) + txt
+        out.append(mk_frame(payload) + bytes(r.choice(b"MORE text after the frame 0123456789") for _ in range(extra + 4)))
+    return out
 
 
 @register
@@ -240,6 +259,19 @@ class C04(Prop):
                     bits = sorted(set(b for b in bits if b < nb and (8 <= b < 14 or b >= 24)))
                     if bits:
                         yield (f"FLIP {h} " + ",".join(map(str, bits)), f"burst", True)
+            # structured wrong checksums (each is a burst of at most 24 bits inside the checksum field): mirrored,
+            # byte-swapped, complemented, rotated, off by one, checksums of other CRC-24 variants and of other ranges
+            c = (f[-3] << 16) | (f[-2] << 8) | f[-1]
+            body = f[:-3]
+            cands = {int(format(c, "024b")[::-1], 2), ((c & 0xFF) << 16) | (c & 0xFF00) | (c >> 16), c ^ 0xFFFFFF,
+                     ((c << 8) | (c >> 16)) & 0xFFFFFF, ((c >> 8) | (c << 16)) & 0xFFFFFF, (c + 1) & 0xFFFFFF, (c - 1) & 0xFFFFFF,
+                     c ^ 0x864CFB, c ^ 0xB704CE, crc24_variant(body, 0xB704CE, 0x864CFB), crc24_variant(body, 0xFFFFFF, 0x864CFB),
+                     crc24_variant(body, 0, 0x5D6DCB), crc24q(body[:-1]) if len(body) > 3 else c, crc24q(body[1:]), crc24q(body + b"\x00"),
+                     int(format(crc24q(bytes(int(format(b, "08b")[::-1], 2) for b in body)), "024b")[::-1], 2)}
+            for w in sorted(cands):
+                if w != c:
+                    bits_ = [nb - 24 + i for i in range(24) if ((w ^ c) >> (23 - i)) & 1]
+                    yield (f"FLIP {h} " + ",".join(map(str, bits_)), "checksum-substitution", True)
             for _ in range(60 if thorough else 15):
                 k = r.choice([3, 5, 7, 9, 11, 21, 33])
                 if k <= len(adm):
